@@ -94,10 +94,10 @@ theorem step_pinv {d : Dev ℝ} {f : Field} {v : Val ℝ} {r : Dev ℝ × Option
       ⟨l1, l2, l3⟩, ⟨i1, i2, i3⟩, c1⟩
   | c p hf ho hv hok =>
     exact ⟨⟨s1, s2, s3, s4, s5, s6, s7, s8, s9, s10, s11, s12⟩, ⟨l1, l2, l3⟩, ⟨i1, i2, hok⟩, c1⟩
-  | pL p hf ho hv hok =>
+  | pL p hf ho hv hsc hok =>
     obtain ⟨h1, h2⟩ := (pLOk_iff p d.ph d.n).mp hok
     exact ⟨⟨s1, s2, s3, s4, s5, s6, s7, s8, s9, s10, s11, s12⟩, ⟨h1, l2, h2⟩, ⟨i1, i2, i3⟩, c1⟩
-  | pH p hf ho hv hok =>
+  | pH p hf ho hv hsc hok =>
     obtain ⟨h1, h2⟩ := (pHOk_iff p d.pl d.n).mp hok
     exact ⟨⟨s1, s2, s3, s4, s5, s6, s7, s8, s9, s10, s11, s12⟩, ⟨l1, h1, h2⟩, ⟨i1, i2, i3⟩, c1⟩
   | aC x hf ho hc hv hok =>
@@ -263,12 +263,65 @@ theorem hl_order_dependent (n : ℕ) :
     setAll (Dev.default .idevice2 n : Dev ℝ) [(.pH, .scalar (-2)), (.pL, .scalar (-3))] = .error .valueError := by
   constructor
   · refine ⟨{ (Dev.default .idevice2 n : Dev ℝ) with pl := .scalar (-3), ph := .scalar (-2) }, ?_⟩
-    simp [setAll, setField, owns, pvalSet, asPVal, guardSet, pLOk, pHOk, hlParamOk, PVal.lenOk, PVal.all, PVal.allLe,
+    simp [setAll, setField, owns, pvalSet, asPVal, guardSet, scalarIfC2, pLOk, pHOk, hlParamOk, PVal.lenOk, PVal.all, PVal.allLe,
       Dev.default]
     try norm_num
-  · simp [setAll, setField, owns, pvalSet, asPVal, guardSet, pLOk, pHOk, hlParamOk, PVal.lenOk, PVal.all, PVal.allLe,
+  · simp [setAll, setField, owns, pvalSet, asPVal, guardSet, scalarIfC2, pLOk, pHOk, hlParamOk, PVal.lenOk, PVal.all, PVal.allLe,
       Dev.default]
     try norm_num
+
+/-! ### CDevice2: scalar slopes, cumulative ranges that cover the horizon; GDevice: coefficient tables -/
+
+/-- a `CDevice2` holds scalar `p_l`, `p_h` (its curve applies to the scalar flow sum). -/
+def ScalarHL (d : Dev ℝ) : Prop :=
+  d.cls = .cdevice2 → scalarIfC2 .cdevice2 d.pl = true ∧ scalarIfC2 .cdevice2 d.ph = true
+
+theorem step_scalarHL {d : Dev ℝ} {f : Field} {v : Val ℝ} {r : Dev ℝ × Option Err} (h : Step d f v r) (hi : ScalarHL d) :
+    ScalarHL r.1 := by
+  cases h with
+  | pL p hf ho hv hsc hok => intro hc; exact ⟨by rw [← (show d.cls = Cls.cdevice2 from hc)]; exact hsc, (hi hc).2⟩
+  | pH p hf ho hv hsc hok => intro hc; exact ⟨(hi hc).1, by rw [← (show d.cls = Cls.cdevice2 from hc)]; exact hsc⟩
+  | _ => exact hi
+
+/-- after any history of assignments (accepted or rejected-and-caught) a `CDevice2` still holds scalar slopes. -/
+theorem cdevice2_scalar_invariant (d : Dev ℝ) (hi : ScalarHL d) (ops : List (Field × Val ℝ)) : ScalarHL (runAll d ops) := by
+  induction ops generalizing d with
+  | nil => exact hi
+  | cons p rest ih =>
+    obtain ⟨f, v⟩ := p
+    simp only [runAll]
+    exact ih _ (step_scalarHL (setField_step d f v) hi)
+
+theorem scalarHL_default (cls : Cls) (n : ℕ) : ScalarHL (Dev.default cls n : Dev ℝ) := by
+  intro _; simp [Dev.default, scalarIfC2]
+
+/-- with two or more cumulative bounds a `CDevice2` is accepted only if the ranges are contiguous from slot 0
+and the last one ends at the horizon. -/
+theorem cdevice2Ranges_ok {d d' : Dev ℝ} (h : cdevice2Ranges d = .ok d') :
+    d' = d ∧ ∀ c c2 cs, d.cbounds = some (c :: c2 :: cs) →
+      ((c :: c2 :: cs).getLast?.map (·.e)) = some (d.n : ℤ) ∧ rangesOk 0 (c :: c2 :: cs) = true := by
+  unfold cdevice2Ranges at h
+  split at h
+  · next c c2 cs hc =>
+    split_ifs at h with h1 h2
+    cases h
+    refine ⟨rfl, ?_⟩
+    intro c' c2' cs' hc'
+    rw [hc] at hc'
+    cases hc'
+    exact ⟨not_not.mp h1, h2⟩
+  · next hne =>
+    cases h
+    exact ⟨rfl, fun c c2 cs hc => absurd hc (hne c c2 cs)⟩
+
+/-- `GDevice.cost_coeffs`: accepted iff one polynomial (1-D) or one row per slot (2-D with `len` rows);
+whatever is assigned is stored, accepted or not. -/
+theorem gdevice_coeffs_accept_iff (d : Dev ℝ) (hc : d.cls = .gdevice) (k rows : ℕ) :
+    (setField d .costCoeffs (.ndim k rows)).2 = none ↔ k = 1 ∨ (k = 2 ∧ rows = d.n) := by
+  have ho : owns d.cls .costCoeffs = true := by rw [hc]; rfl
+  rw [setField_costCoeffs d _ ho]
+  simp only
+  split_ifs with h <;> simp [h]
 
 /-! ### generators: upper bounds `≤ 0` -/
 
@@ -357,7 +410,7 @@ def reported (d : Dev ℝ) : Field → Option (Val ℝ)
   | .c => some (PVal.toVal d.ic)
   | .pL => some (PVal.toVal d.pl)
   | .pH => some (PVal.toVal d.ph)
-  | .costCoeffs => d.coeffNdim.map .ndim
+  | .costCoeffs => d.coeffNdim.map (fun p => .ndim p.1 p.2)
   | .bounds => none
   | .cbounds => none
 
@@ -389,9 +442,9 @@ theorem step_reported {d : Dev ℝ} {f : Field} {v : Val ℝ} {d' : Dev ℝ} (h 
   | sustainment x hf ho hv hok => subst hf hv; exact ⟨fun _ => ⟨rfl, rfl⟩, fun h => absurd ho h⟩
   | c p hf ho hv hok =>
     subst hf; exact ⟨fun _ => ⟨by simp [reported, normVal, asPVal_toVal hv], rfl⟩, fun h => absurd ho h⟩
-  | pL p hf ho hv hok =>
+  | pL p hf ho hv hsc hok =>
     subst hf; exact ⟨fun _ => ⟨by simp [reported, normVal, asPVal_toVal hv], rfl⟩, fun h => absurd ho h⟩
-  | pH p hf ho hv hok =>
+  | pH p hf ho hv hsc hok =>
     subst hf; exact ⟨fun _ => ⟨by simp [reported, normVal, asPVal_toVal hv], rfl⟩, fun h => absurd ho h⟩
   | aC x hf ho hc hv hok =>
     subst hf hv; exact ⟨fun _ => ⟨by simp [reported, normVal, hc], rfl⟩, fun h => absurd ho h⟩
@@ -404,7 +457,7 @@ theorem step_reported {d : Dev ℝ} {f : Field} {v : Val ℝ} {d' : Dev ℝ} (h 
   | rcScalar x hf ho hv hok => subst hf hv; exact ⟨fun _ => ⟨rfl, rfl⟩, fun h => absurd ho h⟩
   | rcNone hf ho hv => subst hf hv; exact ⟨fun _ => ⟨rfl, rfl⟩, fun h => absurd ho h⟩
   | rcPair a b hf ho hv hoa hob => subst hf hv; exact ⟨fun _ => ⟨rfl, rfl⟩, fun h => absurd ho h⟩
-  | coeffs k e hf ho hv hok => subst hf hv; exact ⟨fun _ => ⟨rfl, rfl⟩, fun h => absurd ho h⟩
+  | coeffs k rows e hf ho hv hok => subst hf hv; exact ⟨fun _ => ⟨rfl, rfl⟩, fun h => absurd ho h⟩
 
 /-- an assignment to `f` (accepted or not) leaves what is reported for every *other* parameter alone,
 and never removes a plain attribute. -/
@@ -427,8 +480,8 @@ theorem step_reported_frame {d : Dev ℝ} {f : Field} {v : Val ℝ} {r : Dev ℝ
   | efficiency x hf ho hv hok => subst hf; exact ⟨fun g hg => by cases g <;> first | rfl | exact absurd rfl hg, fun _ hp => hp⟩
   | sustainment x hf ho hv hok => subst hf; exact ⟨fun g hg => by cases g <;> first | rfl | exact absurd rfl hg, fun _ hp => hp⟩
   | c p hf ho hv hok => subst hf; exact ⟨fun g hg => by cases g <;> first | rfl | exact absurd rfl hg, fun _ hp => hp⟩
-  | pL p hf ho hv hok => subst hf; exact ⟨fun g hg => by cases g <;> first | rfl | exact absurd rfl hg, fun _ hp => hp⟩
-  | pH p hf ho hv hok => subst hf; exact ⟨fun g hg => by cases g <;> first | rfl | exact absurd rfl hg, fun _ hp => hp⟩
+  | pL p hf ho hv hsc hok => subst hf; exact ⟨fun g hg => by cases g <;> first | rfl | exact absurd rfl hg, fun _ hp => hp⟩
+  | pH p hf ho hv hsc hok => subst hf; exact ⟨fun g hg => by cases g <;> first | rfl | exact absurd rfl hg, fun _ hp => hp⟩
   | aC x hf ho hc hv hok =>
     subst hf
     exact ⟨fun g hg => by cases g <;> first | rfl | exact absurd rfl hg | simp [reported, hc], fun _ hp => hp⟩
@@ -444,7 +497,7 @@ theorem step_reported_frame {d : Dev ℝ} {f : Field} {v : Val ℝ} {r : Dev ℝ
   | rcScalar x hf ho hv hok => subst hf; exact ⟨fun g hg => by cases g <;> first | rfl | exact absurd rfl hg, fun _ hp => hp⟩
   | rcNone hf ho hv => subst hf; exact ⟨fun g hg => by cases g <;> first | rfl | exact absurd rfl hg, fun _ hp => hp⟩
   | rcPair a b hf ho hv hoa hob => subst hf; exact ⟨fun g hg => by cases g <;> first | rfl | exact absurd rfl hg, fun _ hp => hp⟩
-  | coeffs k e hf ho hv hok => subst hf; exact ⟨fun g hg => by cases g <;> first | rfl | exact absurd rfl hg, fun _ hp => hp⟩
+  | coeffs k rows e hf ho hv hok => subst hf; exact ⟨fun g hg => by cases g <;> first | rfl | exact absurd rfl hg, fun _ hp => hp⟩
 
 /-- keyword arguments applied in caller order: each is stored as supplied, nothing else moves. -/
 theorem setAll_reported {d d' : Dev ℝ} {kw : List (Field × Val ℝ)} (h : setAll d kw = .ok d')
